@@ -1,23 +1,28 @@
 """C11 — suppression and enabling are a pure projection of the diagnostics.
 
 Streams
-  e2e-disable : generated program P, every subset S of its codes disabled (command-line route = the
-                settings dict `main()` builds from -d; config-file option; per-module override; a few true
-                `python -m pyanalyze -d …` subprocess runs)        property: D(P, S) == [d in D(P): code(d) not in S]
-  e2e-comment : P + one ignore comment: trailing form on every non-blank line, own-line form before every
-                line and after the last one, x {bare, code of a diagnostic there, foreign code}
-  e2e-multi   : P + several random comments (incl. overlapping ones, leading blocks)
+  e2e-disable : generated program P, subsets S of its codes disabled (command-line route = the settings dict
+                `main()` builds from -d; config-file option; per-module override against a top-level "on"; an
+                override for another package as negative control; a few true `python -m pyanalyze -d …`
+                subprocess runs)                    property: D(P, S) == [d in D(P): code(d) not in S]
+  e2e-comment : P + one ignore comment: trailing form on every code line, own-line form before every line and
+                after the last one, x {bare, code of a diagnostic there, second code there, foreign code}
+  e2e-multi   : P + several random comments (overlapping ones, leading blocks included)
                 property (both): D(P + comments) == D(P) minus the targeted diagnostics, plus one unused_ignore per
                 comment that targets nothing and one bare_ignore per bare comment (oracle: `expected()` below, pure
                 Python over D(P) and the comment placements, no pyanalyze code involved)
   unit        : synthetic (file lines, disabled codes, sequence of show_error calls) fed to the *real*
                 NameCheckVisitor.show_error / show_errors_for_unused_ignores / show_errors_for_bare_ignores
   options     : synthetic option-instance lists -> real Options.is_error_code_enabled
-  model       : lake env lean --run Driver/C11.lean  (C11.check, C11.specCheck, D11 class, isErrorCodeEnabled)
+  lines       : random small sources -> str.splitlines() and the positions CPython's parser assigns
+  model       : lake env lean --run Driver/C11.lean  (C11.check, C11.specCheck, C11.pyLines / tokLines, the D11
+                classes, C11.isErrorCodeEnabled)
 Correspondence: every real run records the raw stream of show_error calls (a recording subclass of
-NameCheckVisitor); the Lean model is fed (lines, disabled codes, raw stream) and must reproduce the failure list in
-order, and the set used_ignores.  unit/options compare directly.  Stream `spec`: Lean specCheck == Python oracle on
-the single-comment cases outside the exception class.
+NameCheckVisitor); the Lean model is fed (splitlines() of the source, disabled codes, raw stream) and must reproduce
+the failure list in order and the set used_ignores; C11.pyLines must reproduce splitlines() (stream splitlines).
+unit/options compare directly. Spec validation: Lean specCheck == Python oracle on the single-comment cases outside
+the exception classes (stream spec); Lean tokLines == CPython's line numbering (stream spec-toklines); Lean model ==
+Lean spec outside the classes on the unit cases (stream model-vs-spec; this is theorem check_eq_spec_partial).
 """
 import ast, contextlib, io, itertools, json, os, re, subprocess, sys, types
 
@@ -53,7 +58,9 @@ RULE = (
     "singletons, co-singletons, all, random). comments: every line x both forms x {bare, matching, foreign}, first and "
     "last line included; then random multi-comment variants. unit: all files of <=2 lines over 12 line kinds x all "
     "single calls, then random files (<=6 lines over 27 kinds) x random call sequences (<=6 calls: duplicates, None / "
-    "positionless / _FakeNode nodes, code None, obey_ignore / save off, captured calls, line numbers outside the file). "
+    "positionless / _FakeNode nodes, code None, obey_ignore / save off, captured calls, line numbers outside the file); "
+    "programs with a form feed line / a splitlines()-only line boundary inside a string or comment; a profile with "
+    "every error code switched on. "
     "non-trivial = a case in which a comment or a disabled code removes at least one diagnostic or an unused/bare "
     "report is produced"
 )
@@ -61,9 +68,8 @@ ASSUMPTIONS = [
     "raw-stream independence (DESIGN C11): the sequence of show_error calls the visitor makes does not depend on the "
     "settings or on comments (up to the line shift of an inserted comment line); not proved, checked here on every "
     "real run (the property search compares real outputs, the tag raw_stream_differs counts differing call sequences)",
-    "the file is given to the model as str.splitlines() of the source; sources containing other line-boundary "
-    "characters than \\n (form feed, \\x1c-\\x1e, \\x85, \\u2028/9), where splitlines() and the tokenizer disagree, are "
-    "outside the generators",
+    "diagnostics are identified by (code, lineno, col_offset, first line of the message); their order is compared "
+    "only between implementation and model of the same run (the order of some calls follows set iteration, C10)",
     "comments are inserted into programs that contain no ignore-comment text of their own (also not inside string "
     "literals); a coded comment in the leading block is read as whole-file ignore for that code (the code's behaviour; "
     "README says codes do not work for whole-file ignores)",
@@ -692,13 +698,13 @@ def unit_cases(ctx):
         for c in calls:
             cases.append((f, [], [c]))
     ctx.extra["unit_exhaustive"] = "%d files of <=2 lines over %d line kinds x %d single calls" % (len(files), len(UNIT_KINDS_SMALL), len(calls))
-    cap = ctx.n(2500, 30000)
+    cap = ctx.n(2000, 30000)
     if len(cases) > cap:
         rng.shuffle(cases)
         cases = cases[:cap]
         ctx.extra["unit_exhaustive"] += "; sampled down to %d by the seed" % cap
     # random
-    for _ in range(ctx.n(3500, 40000)):
+    for _ in range(ctx.n(3000, 40000)):
         nl = rng.randint(0, 6)
         f = [rng.choice(UNIT_KINDS if rng.random() < 0.7 else UNIT_KINDS_SMALL) for _ in range(nl)]
         off = [c for c in (A, B, "unused_ignore", "bare_ignore") if rng.random() < 0.15]
@@ -938,36 +944,53 @@ def corpus():
 
 
 def _run(ctx, with_model):
+    import time
     batch = Batch(ctx, with_model)
     budget_small = dict(max_codes_all=ctx.n(4, 5), extra_subsets=ctx.n(3, 6), cfg_routes=2, single=10 ** 6, multi=ctx.n(6, 20))
     budget_rand = dict(max_codes_all=ctx.n(3, 5), extra_subsets=ctx.n(3, 12), cfg_routes=ctx.n(1, 3),
                        single=ctx.n(70, 10 ** 6), multi=ctx.n(8, 25))
+    timing = ctx.extra.setdefault("timing_s", {})
+    t = [time.time()]
+
+    def lap(name):
+        timing[name] = round(timing.get(name, 0) + time.time() - t[0], 1)
+        t[0] = time.time()
+
     # 1. corpus
     for item in corpus():
         if "program" in item and "edits" in item:
             replay_e2e(ctx, batch, item)
-        elif "lines" in item:
-            replay_unit(ctx, item, with_model)
+    batch.flush()
+    replay_units(ctx, [item for item in corpus() if "lines" in item], with_model)
+    PROFILE[0] = "std"
     for base in CORPUS_PROGRAMS:
         program_case(ctx, batch, base, budget_small)
+    lap("corpus")
     # 2. small programs, every placement; 3. seeded random larger ones
     for _ in range(ctx.n(3, 10)):
         program_case(ctx, batch, gen_program(ctx.rng, small=True), budget_small)
-    for _ in range(ctx.n(4, 30)):
+    lap("small_programs")
+    for _ in range(ctx.n(3, 30)):
         program_case(ctx, batch, gen_program(ctx.rng), budget_rand)
+    lap("random_programs")
     for _ in range(ctx.n(2, 8)):   # sources where splitlines() and the tokenizer disagree about the lines
         program_case(ctx, batch, inject_breaks(ctx.rng, gen_program(ctx.rng, small=True)), budget_rand)
+    lap("break_programs")
     PROFILE[0] = "wide"      # every error code on: lint codes join the diagnostics and the subsets
     try:
         for _ in range(ctx.n(2, 10)):
-            program_case(ctx, batch, gen_program(ctx.rng), budget_rand)
+            program_case(ctx, batch, gen_program(ctx.rng, small=ctx.tier == "quick" and not ctx.big()), budget_rand)
     finally:
         PROFILE[0] = "std"
+    lap("wide_programs")
     run_unit(ctx, with_model)
+    lap("unit")
     run_options(ctx, with_model)
     run_lines(ctx, with_model)
+    lap("options_lines")
     for _ in range(ctx.n(1, 3)):
         run_cli(ctx, gen_program(ctx.rng, small=True))
+    lap("cli")
     ctx.extra["checkers_built"] = len(_KW)
 
 
@@ -1000,22 +1023,26 @@ def replay_e2e(ctx, batch, item):
         what = check_variant(ctx, "e2e-comment", base, D, edits, D2)
         batch.add("e2e-comment" if len(edits) == 1 else "e2e-multi", {"program": base, "edits": [list(e) for e in edits], "off": []},
                   new_lines, [], D2, raw2, used2, what, spec_expect=spec_expectation(D, base, edits) if len(edits) == 1 else None)
-    batch.flush()
 
 
-def replay_unit(ctx, item, with_model=True):
-    case = (item["lines"], item.get("off", []), item["raw"])
+def replay_units(ctx, items, with_model=True):
+    if not items:
+        return
+    cases = [(it["lines"], it.get("off", []), it["raw"]) for it in items]
     global _NCV, _REC
     if _NCV is None:
         _NCV, _REC = _classes()
-    impl = unit_real(ctx, [case])[0]
-    ctx.count(1, unit=1)
+    impl = unit_real(ctx, cases)
+    model = None
     if with_model:
-        mo = parse_out(lean.run_driver("C11", [driver_line(model_off(case[1]), case[0], case[2])])[0])
-        ctx.corr("unit")
-        want = "%s used=%s" % (mo["model"], mo["used"])
-        if impl != want:
-            ctx.disagree("unit", item, impl, want)
+        model = [parse_out(o) for o in lean.run_driver("C11", [driver_line(model_off(c[1]), c[0], c[2]) for c in cases])]
+    for i, it in enumerate(items):
+        ctx.count(1, unit=1)
+        if model is not None:
+            ctx.corr("unit")
+            want = "%s used=%s" % (model[i]["model"], model[i]["used"])
+            if impl[i] != want:
+                ctx.disagree("unit", it, impl[i], want)
 
 
 def replay(ctx, data):
@@ -1026,8 +1053,9 @@ def replay(ctx, data):
     batch = Batch(ctx, True)
     if "program" in case:
         replay_e2e(ctx, batch, case)
+        batch.flush()
     elif "lines" in case:
-        replay_unit(ctx, case)
+        replay_units(ctx, [case])
     elif "insts" in case:
         print("options case:", case)
     print(json.dumps({"case": case, "candidates": ctx.candidates, "broken": ctx.broken}, indent=1, default=str))
